@@ -99,22 +99,29 @@ Qed.
    - set_peripheral_compartments(n) for every n <= current count + 1 (any number of removals, or
      one addition) — uses `periph_order`: Python's (len(name), name) order on PERIPHERAL<k> is
      the numeric order, i.e. the decimal rendering of naturals is monotone for (length, lexicographic);
-   - the four absorption setters on the states listed by abs_proved — for every valid state on
-     which the guard holds EXCEPT: set_instantaneous_absorption with a depot behind two or more
-     transits (depot removed and chain reconnected) and set_seq_zo_fo_absorption from instantaneous
-     absorption without transits.  Includes the two-pass cases where the Python runs its detectors
-     on an intermediate system (depot removed; dose moved to CENTRAL) — lemmas FG_central,
-     FG_dosing0 on systems whose dosing compartment was relabelled and moved in the node order.
+   - the four absorption setters on the states listed by abs_proved — every valid state on which the
+     guard holds EXCEPT set_seq_zo_fo_absorption from instantaneous absorption without transits
+     (its second pass runs on the output of set_first_order_absorption, known only up to the
+     equivalence).  Includes the two-pass cases where the Python runs its detectors on an
+     intermediate system (depot removed; dose moved to CENTRAL) — lemmas FG_central, FG_dosing0 on
+     systems whose dosing compartment was relabelled and moved in the node order — and
+     set_instantaneous_absorption with a depot behind ANY number of transits (depot_removed_spec,
+     refines_inst_depot_chain: chain reconnected to central, infusion on TRANSIT1 turned into a bolus);
    - set_transit_compartments(n, keep_depot) on every valid state when the depot stays
      (keep_depot=True, or there is no depot), for every n and every current count (transits_proved):
      count already there (only the lag time goes), the documented refusal, the `while n > 0` loop
      creating a chain in front of the dosing compartment (dose, bioavailability moved to TRANSIT1),
      the `while nadd > 0` loop, the `while nremove > 0` loop down to n >= 1 and down to 0 (dose
-     to the compartment behind the chain) — each by induction on the loop count.  Left out:
-     creating a chain while a lag time is set (the recorded anomaly) and keep_depot=False with a depot.
-   Not covered here (setter_refines_partial remains their link): set_transit_compartments with
-   keep_depot=False on a depot, the two absorption cases above, set_peripheral_compartments adding
-   two or more. *)
+     to the compartment behind the chain) — each by induction on the loop count; and
+     keep_depot=False on a depot for every n: WITHOUT transits (dose to central, depot removed, chain
+     created in front of central: create_on_FG, the creation loop on a system whose dosing compartment
+     was relabelled) and BEHIND a chain (last transit connected to central, depot removed:
+     depot_removed_spec; then the same / addition / removal loops run on that system, which is
+     build (nodepot s) with one edge moved — the loop lemmas are generalised to it: add_tail,
+     remove_transits_spec_g, detectors through has_edge_removed).  Left out: creating a chain while
+     a lag time is set and the depot stays (the recorded anomaly, outside the guard).
+   Not covered here (setter_refines_partial remains their link): the absorption case above,
+   set_peripheral_compartments adding two or more. *)
 Theorem setter_refines :
   forall (f : req) (s : sk), refines_proved f s = true -> refines f s = true.
 Proof. exact setter_refines_lemma. Qed.
@@ -132,10 +139,10 @@ Theorem feature_request_sound_all_counts :
 Proof. exact sound_all_counts_lemma. Qed.
 
 (* Coverage of setter_refines: on valid states within the guard, every request of all sixteen forms
-   has the all-counts refinement, except the four residual classes named by open_case
-   (set_instantaneous_absorption with a depot behind two or more transits; set_seq_zo_fo_absorption
-   from instantaneous absorption without transits; set_peripheral_compartments adding two or more;
-   set_transit_compartments(keep_depot=False) on a depot). *)
+   has the all-counts refinement, except the two residual classes named by open_case
+   (set_seq_zo_fo_absorption from instantaneous absorption without transits;
+   set_peripheral_compartments adding two or more).  The other fourteen request forms —
+   including set_transit_compartments with either keep_depot — are covered completely. *)
 Theorem setter_refines_coverage :
   forall (f : req) (s : sk), valid s = true -> guard f s = true -> open_case f s = false ->
     refines_proved f s = true.
